@@ -31,6 +31,10 @@ mod c11b;
 mod c05;
 mod c05b;
 mod certd;
+mod csrd;
+mod tald;
+mod rtad;
+mod berd;
 
 use std::io::{BufRead, Write};
 
@@ -151,6 +155,10 @@ fn c04_generate(ctx: &mut Ctx) {
     certd::generate_cms_into(ctx, &seeds, &c04::mutate_any, &c04::systematic);
     certd::generate_crl_into(ctx, &seeds, &c04::mutate_any, &c04::systematic);
     certd::generate_msg_into(ctx, &seeds, &c04::mutate_any, &c04::systematic);
+    csrd::generate_csr_into(ctx, &seeds, &c04::mutate_any, &c04::systematic);
+    tald::generate_tal_into(ctx, &seeds, &c04::mutate_any, &c04::systematic);
+    rtad::generate_rta_into(ctx, &seeds, &c04::mutate_any, &c04::systematic);
+    berd::generate_ber_into(ctx, &seeds, &c04::mutate_any);
 }
 
 fn c04_exec(toks: &[&str]) -> String {
@@ -160,6 +168,12 @@ fn c04_exec(toks: &[&str]) -> String {
         Some(&"crld") => certd::exec_crl(toks),
         Some(&"idcd") => certd::exec_idc(toks),
         Some(&"smsgd") => certd::exec_smsg(toks),
+        Some(&"csrd") => csrd::exec_csr(toks),
+        Some(&"tald") => tald::exec_tal(toks),
+        Some(&"keyd") => tald::exec_key(toks),
+        Some(&"rtad") => rtad::exec_rta(toks),
+        Some(&"cmsdr") => berd::exec_cms_relaxed(toks),
+        Some(&"smsgdr") => berd::exec_smsg_relaxed(toks),
         _ => c04::exec(toks),
     }
 }
